@@ -38,13 +38,29 @@ class C17(Prop):
             chips.append((parts[1], temps))   # [name;platform;path;fans=..;temps=..]
         return chips
 
+    @staticmethod
+    def parse_dirs(g):
+        """chips of a hw.tree dump: [(platform, directory)]"""
+        import re
+        return [(p[1], p[2]) for p in (m.group(1).split(";") for m in re.finditer(r"\[([^\]]*)\]", g)) if len(p) >= 5]
+
     def oracle(self, name, ops, go):
         out = []
         for cops, cgo in cases(ops, go):
-            chips = []
+            chips, dirs_of, single, failed = [], [], {}, set()
             for i, (op, g) in enumerate(zip(cops, cgo)):
                 if op.startswith("hw.tree"):
                     chips = self.parse_tree(g)
+                    dirs_of = self.parse_dirs(g)
+                    single, failed = {}, set()   # results of the single-entry hw.bindfan ops on THIS tree
+                if op.startswith("hw.bindfan "):
+                    a = kv(op)
+                    key = (a.get("platform", ""), a.get("index", "0"), a.get("rpm", "0"), a.get("pwm", "0"))
+                    if g.startswith("ok"):
+                        r = kv(g)
+                        single[key] = f"{r['rpm']}|{r['pwm']}|{r['en']}"
+                    elif g.startswith("err"):
+                        failed.add(key)
                 if op.startswith("hw.bindsensor") and g.startswith("ok"):
                     a = kv(op)
                     if op.startswith("hw.bindsensors"):
@@ -65,7 +81,69 @@ class C17(Prop):
                 if g.startswith("panic"):
                     out.append(viol(f"binding crashed instead of failing with an error: {g}", cops, cgo, upto=i))
                     break
-                if op.startswith("hw.bindfan") and g.startswith("ok"):
+                if op.startswith("hw.bindfans") and g.startswith("ok"):
+                    import re
+                    sels = [t.split(":") for t in kv(op).get("sels", "").split(";") if t]
+                    got = [t for t in kv(g).get("fans", "").split(",") if t]
+                    bad = None
+                    if len(got) != len(sels):
+                        bad = f"{len(sels)} fan entries but {len(got)} fans were created: {g}"
+                    for n, ((pat, idx, rpm, pwm), triple) in enumerate(zip(sels, got)):
+                        if bad:
+                            break
+                        paths = triple.split("|")
+                        base = paths[0].rsplit("/", 1)[0]
+                        mr = re.fullmatch(r"fan(-?\d+)_input", paths[0][len(base) + 1:])
+                        # the three paths must lie in ONE chip directory, pwm and enable on one channel
+                        if len(paths) != 3 or not mr:
+                            bad = f"fan entry {n}: malformed binding {triple}"
+                            break
+                        mp = re.fullmatch(re.escape(base) + r"/pwm(-?\d+)", paths[1])
+                        if not mp or paths[2] != paths[1] + "_enable":
+                            bad = f"fan entry {n} (platform '{pat}'): bound paths are not in one chip directory / on one pwm channel: {triple}"
+                            break
+                        # ... and that directory must belong to a chip the entry's pattern matches
+                        dirs = {d for (plat, d) in dirs_of if pat.lower() in plat.lower()}
+                        if base not in dirs:
+                            bad = f"fan entry {n} (platform '{pat}') was bound to {base}; chip directories it names: {sorted(dirs) or 'none'}"
+                            break
+                        rpmch, pwmch = int(mr.group(1)), int(mp.group(1))
+                        if int(rpm) > 0 and rpmch != int(rpm):
+                            bad = f"fan entry {n}: bound rpm channel {rpmch}, selected {rpm}"
+                        elif int(pwm) > 0 and pwmch != int(pwm):
+                            bad = f"fan entry {n}: explicit pwmChannel {pwm} not honoured ({pwmch})"
+                        elif int(pwm) == 0 and pwmch != rpmch:
+                            bad = f"fan entry {n}: pwmChannel did not default to the rpm channel ({pwmch} vs {rpmch})"
+                    if bad:
+                        out.append(viol(bad, cops, cgo, upto=i))
+                        break
+                    # an entry must get what it gets on its own: compare with the single-entry op of the same selector
+                    for (pat, idx, rpm, pwm), triple in zip(sels, got):
+                        alone = single.get((pat, idx, rpm, pwm))
+                        if alone is not None and alone != triple:
+                            out.append(viol(f"fan entry (platform '{pat}', index {idx}, rpm {rpm}, pwm {pwm}) is bound to {triple} inside a multi-entry call but to {alone} on its own", cops, cgo, upto=i))
+                            break
+                    else:
+                        continue
+                    break
+                if op.startswith("hw.bindfans") and g.startswith("err"):
+                    # the call may only fail when the entry it blames has no device on its own
+                    sels = [tuple(t.split(":")) for t in kv(op).get("sels", "").split(";") if t]
+                    at = kv(g).get("at", "?")
+                    if not at.isdigit() or int(at) >= len(sels):
+                        out.append(viol(f"initializeFans failed without naming one of its entries: {g}", cops, cgo, upto=i))
+                        break
+                    if sels[int(at)] in single:
+                        out.append(viol(f"initializeFans rejected entry {at} {sels[int(at)]}, which binds to {single[sels[int(at)]]} on its own", cops, cgo, upto=i))
+                        break
+                    for earlier in sels[:int(at)]:
+                        if earlier in failed:
+                            out.append(viol(f"initializeFans accepted entry {earlier}, which has no device on its own", cops, cgo, upto=i))
+                            break
+                    else:
+                        continue
+                    break
+                if op.startswith("hw.bindfan ") and g.startswith("ok"):
                     a, r = kv(op), kv(g)
                     # the three paths must lie in ONE chip directory and use the channels the result names
                     base = r["rpm"].rsplit("/", 1)[0]
